@@ -2,7 +2,7 @@
 # usage: tools/verify_seed.sh Cxx [suffix]  — confirms a sub-agent's seeded change myself, in its scratch worktree:
 #   demo passes on /repo, demo fails on the changed tree, the unedited test suite passes on the changed tree.
 ID="$1"; SFX="$2"
-WT=/tmp/wt_$ID$SFX; SD=/tmp/seed_$ID$SFX
+WT=/tmp/wt_$ID; SD=/tmp/seed_$ID$SFX
 [ -f "$SD/demo.py" ] || { echo "$ID: no demo"; exit 2; }
 git -C "$WT" diff > "$SD/patch.verified.diff"
 [ -s "$SD/patch.verified.diff" ] || { echo "$ID: worktree has no change"; exit 2; }
